@@ -137,6 +137,10 @@ def materialise(case, root: Path):
         f.parent.mkdir(parents=True, exist_ok=True)
         with open(f, 'w', newline='') as fh:
             fh.write(text)
+    for link, target in (case.get('symlinks') or {}).items():       # link -> target, both relative to the scratch root
+        f = root / link
+        f.parent.mkdir(parents=True, exist_ok=True)
+        os.symlink(os.path.relpath(root / target, f.parent), f)
     import yaml
     for dname, cfg in (case.get('cfgs') or {}).items():
         f = root / dname / 'config.yaml'
